@@ -433,6 +433,7 @@ def check(ctx, report):
     equal_values_render_equal(ctx, report)
     absent_optional_fields(ctx, report)
     key_sizes_defined(ctx, report)
+    code_point_texts(ctx, report)
     report.floor('C14.R1', 20, 'iteration obligations')
     report.floor('C14.R4', 15, '_asdict overrides')
 
@@ -780,6 +781,51 @@ def show_exc(r):
         return show(r.exc) if not isinstance(r.exc, str) else r.exc
     except Exception:      # pylint: disable=broad-except
         return str(r.exc)
+
+
+def code_point_texts(ctx, report, RULE='C14.R16'):
+    """Markdown renders a code point by ``str()`` of its parameter object (``post_text_encoder``).  For every enumeration of the
+    data tables that the package uses and whose parameter class defines ``__str__``: a field the method dereferences without a
+    test (``self.named_group.value``) is not null in any row of the table - otherwise the member with the null field is a value the
+    parsers hand out and Markdown cannot render (AttributeError on None).  Code of the dependency is read against its own data."""
+    from .c10 import used_by_repo
+    from ..model import ParamsValue
+    report.rule(RULE, 'code points: the text of a parameter object dereferences no field that is null in a row of its table')
+    model = ctx.model
+    n = 0
+    for c in model.all_classes:
+        if not c.enum_members or not isinstance(getattr(c, 'enum_params_class', None), ClassInfo):
+            continue
+        if c.external and not used_by_repo(model, c):
+            continue
+        f = c.enum_params_class.resolve('__str__')
+        if f is None or not isinstance(getattr(f, 'node', None), ast.FunctionDef):
+            continue
+        me = f.node.args.args[0].arg if f.node.args.args else 'self'
+        # fields read as self.F.<something>, outside a test of self.F
+        tested = set()
+        for t in ast.walk(f.node):
+            tests = [t.test] if isinstance(t, (ast.If, ast.IfExp, ast.While)) else (t.values[:-1] if isinstance(t, ast.BoolOp) else [])
+            for e in tests:
+                for x in ast.walk(e):
+                    if isinstance(x, ast.Attribute) and isinstance(x.value, ast.Name) and x.value.id == me:
+                        tested.add(x.attr)
+        derefs = set()
+        for x in ast.walk(f.node):
+            if isinstance(x, ast.Attribute) and isinstance(x.value, ast.Attribute) and isinstance(x.value.value, ast.Name) and x.value.value.id == me:
+                derefs.add(x.value.attr)
+        for fld in sorted(derefs - tested):
+            n += 1
+            null = [name for name, row in c.enum_members.items() if isinstance(row, ParamsValue) and fld in row.fields and row.fields[fld] is None]
+            if null:
+                where = ('cryptodatahub:' if c.external else c.module.relpath + ':') + c.name
+                report.add(RULE, '%s@text[%s]' % (where, fld),
+                           'str() of the parameters of %s reads self.%s.%s without a test, and %s is null for %s: a list holding that code point '
+                           '(which the parsers accept) cannot be rendered as Markdown (AttributeError)' % (
+                               c.name, fld, next(x.attr for x in ast.walk(f.node) if isinstance(x, ast.Attribute) and isinstance(x.value, ast.Attribute)
+                                                 and x.value.attr == fld), fld, ', '.join(null[:4])))
+    report.count(RULE, n)
+    report.floor(RULE, 1, 'fields dereferenced by the text of parameter objects')
 
 
 def finite_numbers(ctx, report, RULE='C14.R10'):
